@@ -378,3 +378,24 @@ func getRequiredArray(entry interface{}) ([]interface{}, error) {
 
 	return arr, nil
 }
+
+// getObjects checks that the entry, when present, is an array of JSON objects; any other element would be skipped by
+// document.ParsePublicKeys / ParseServices and hence escape validation.
+func getObjects(entry interface{}, what string) error {
+	if entry == nil {
+		return nil
+	}
+
+	arr, ok := entry.([]interface{})
+	if !ok {
+		return fmt.Errorf("%s must be an array", what)
+	}
+
+	for _, e := range arr {
+		if _, ok := e.(map[string]interface{}); !ok {
+			return fmt.Errorf("%s must contain objects only", what)
+		}
+	}
+
+	return nil
+}
